@@ -13,7 +13,7 @@ ID = "C16"
 LEVEL = "exploration"
 RULE = (
     "square/triangle: side in {1, 2, 7, 1/3, 5/2, 0.75, 1e-3, 1e4} x centre in {(0,0), (3,-2), (1/3,2/7), (0.5,-1.25), (1e6,1e6)}; "
-    "regular_polygon: nsides 3..12, 17, 64 x radius x centre; circle: ndivangle 4..16, 32, 64, 256 x radius x centre; polygon: all "
+    "regular_polygon: nsides 3..12, 17, 64 x radius x centre and every nsides 3..130 (thorough 3..420) at unit radius; circle: ndivangle 4..16, 32, 64, 256 x radius x centre; polygon: all "
     "lattice triangles/quadrilaterals and the P alphabet in both orientations, vertices as tuples, lists and Point2D; invalid: "
     "side/radius in {0, -1, 'a', None, [], nan}, nsides in {2, 0, -3, 3.0, '4'}, ndivangle in {3, 0, 4.0, '8'}, centre in {'ab', (1,), "
     "(1,2,3), None}. Oracle: SimpleShape, counter-clockwise, exact vertex list (closed form; exact for rational parameters), closed-form "
@@ -47,7 +47,7 @@ def verts_of(S):
 
 
 def cases(tier, seed):
-    specs = [{"id": f, "family": f} for f in ("square", "triangle", "regular", "circle", "invalid")]
+    specs = [{"id": f, "family": f, "tier": tier} for f in ("square", "triangle", "regular", "circle", "invalid")]
     n = len(al.T3)
     for k in range(8):
         specs.append({"id": "polygon:%d" % k, "family": "polygon", "polygon": k, "tier": tier, "seed": seed})
@@ -172,6 +172,29 @@ def run_case(spec):
                         a = rg.jordan_curve(S.jordans[0]).area()
                         if abs(a - area) > F(1, 10**9) * R * R:
                             fail("area", "area %s, closed form %s" % (float(a), float(area)))
+        # every number of sides (vertex count, angles, area) at one radius and centre
+        top = 130 if spec.get("tier", "quick") == "quick" else 420
+        for n in range(3, top + 1):
+            cid = "regular_polygon(%d)" % n
+            st, S = call_limited(lambda: Pr.regular_polygon(n), 30)
+            evals[0] += 1
+            nontrivial.append(cid)
+            fail = mkfail(cid)
+            if st != "ok":
+                fail("noresult", exc_str(S) if st == "raise" else st)
+                continue
+            got = verts_of(S)
+            if len(got) != n or len(S.jordans[0].segments) != n:
+                fail("vertices", "%d vertices and %d segments for nsides=%d" % (len(got), len(S.jordans[0].segments), n))
+                continue
+            if n != 4:
+                for k, g in enumerate(got):
+                    if abs(float(g[0]) - math.cos(2 * math.pi * k / n)) > 1e-9 or abs(float(g[1]) - math.sin(2 * math.pi * k / n)) > 1e-9:
+                        fail("vertices", "vertex %d is %s" % (k, g))
+                        break
+            a = float(rg.jordan_curve(S.jordans[0]).area())
+            if abs(a - n / 2 * math.sin(2 * math.pi / n)) > 1e-9:
+                fail("area", "area %r, closed form %r" % (a, n / 2 * math.sin(2 * math.pi / n)))
     elif sid == "circle":
         for c in CENTRES[:4]:
             for r in (1, 2, "1/3", 0.75, 1e3):
